@@ -317,3 +317,11 @@ Proof.
     exists (FItem it). split; [now apply DL_bare|reflexivity].
 Qed.
 Print Assumptions c08_sound.
+
+(* the RFC language is contained in the library's language, so soundness and completeness talk about the same trees *)
+Lemma ItemStr_ItemStrL it s : ItemStr it s -> ItemStrL it s.
+Proof. intros []; constructor; try assumption; try (now apply AttrDesc_AttrDescL); try (destruct mr; [now apply Oid_OidL|exact I]); now apply Oid_OidL. Qed.
+Lemma FiltStr_FiltStrL : (forall f s, FiltStr f s -> FiltStrL f s) /\ (forall l s, FiltStrs l s -> FiltStrsL l s).
+Proof. apply FiltStr_FiltStrs_ind; intros; try (constructor; assumption). constructor. now apply ItemStr_ItemStrL. Qed.
+Theorem Denote_DenoteL f s : Denote f s -> DenoteL f s.
+Proof. intros [f' s' H|it s' H]; [apply DL_filter; now apply (proj1 FiltStr_FiltStrL)|apply DL_bare; now apply ItemStr_ItemStrL]. Qed.
